@@ -18,6 +18,8 @@ enum { DK_NONE = 0, DK_DICT = 1, DK_CDICT = 2 };
 
 static u64 n_calls, n_frames, n_decodes, n_switch, n_flush, n_uncomp, n_volatile, n_dec_ok, n_dec_err, n_dec_incomplete;
 static u8* g_dictbuf;   /* 70000 bytes, blob 1 */
+static u8 g_ops[1 << 16]; static size_t g_nops;   /* call history of the current streaming session: 'U'/'u' + u32 size, 'F' */
+static void op_rec(int code, size_t n) { if (g_nops + 5 <= sizeof g_ops) { g_ops[g_nops++] = (u8)code; if (code != 'F') { u32 v = (u32)n; memcpy(g_ops + g_nops, &v, 4); g_nops += 4; } } else g_nops = sizeof g_ops + 1; }
 
 /* ---------- growable byte vector ---------- */
 typedef struct { u8* p; size_t n, cap; } vec_t;
@@ -47,6 +49,7 @@ static int make_frame_stream(LZ4F_cctx* cctx, const LZ4F_preferences_t* prefs, c
 {
     size_t pos = 0; size_t bs = LZ4F_getBlockSize(prefs->frameInfo.blockSizeID); size_t r; u8* dst; size_t cap; int lastUncompressed = 0;
     const u8* dict = g_dictbuf + (70000 - dictSize);
+    g_nops = 0;
     cap = LZ4F_HEADER_SIZE_MAX; dst = xalloc(cap);
     if (dictKind == DK_DICT) r = LZ4F_compressBegin_usingDict(cctx, dst, cap, dict, dictSize, prefs);
     else if (dictKind == DK_CDICT) r = LZ4F_compressBegin_usingCDict(cctx, dst, cap, cdict, prefs);
@@ -62,7 +65,7 @@ static int make_frame_stream(LZ4F_cctx* cctx, const LZ4F_preferences_t* prefs, c
         if (chunk > n - pos) chunk = n - pos;
         if (act < 12) {   /* flush */
             cap = LZ4F_compressBound(0, prefs); if (capMode == 1) cap += rndn(9);
-            dst = xalloc(cap); r = LZ4F_flush(cctx, dst, cap, NULL); n_calls++; n_flush++;
+            dst = xalloc(cap); r = LZ4F_flush(cctx, dst, cap, NULL); n_calls++; n_flush++; op_rec('F', 0);
             if (LZ4F_isError(r)) { free(dst); return 2; }
             vec_put(out, dst, r); free(dst);
             if (pos >= n) break;
@@ -77,7 +80,7 @@ static int make_frame_stream(LZ4F_cctx* cctx, const LZ4F_preferences_t* prefs, c
             dst = xalloc(cap);
             if (uncompressed) { r = LZ4F_uncompressedUpdate(cctx, dst, cap, src, chunk, &opt); n_uncomp++; }
             else r = LZ4F_compressUpdate(cctx, dst, cap, src, chunk, rndp(20) ? NULL : &opt);
-            n_calls++;
+            n_calls++; op_rec(uncompressed ? 'u' : 'U', chunk);
             if (tmp) { memset(tmp, 0xDD, chunk); free(tmp); }
             if (LZ4F_isError(r)) { free(dst); return 3; }
             vec_put(out, dst, r); free(dst); pos += chunk;
@@ -159,7 +162,7 @@ static void frame_case(LZ4F_cctx* cctx, LZ4F_dctx* dctx, const u8* in, size_t n,
         free(dst); free(src);
     }
     n_frames++;
-    r.n -= 1; rec_bytes(&r, out.p, out.n);
+    r.n -= 1; rec_bytes(&r, out.p, out.n); rec_bytes(&r, g_ops, (kind == K_STREAM && g_nops <= sizeof g_ops) ? g_nops : 0);
     if (rc) { char why[64]; snprintf(why, sizeof why, "compression_call_failed_%d", rc); c_fail(&r, why); }
     else {
         /* the real decoder, several chunkings: must return 0 exactly at the last byte and reproduce the input */
@@ -305,6 +308,7 @@ int main(int argc, char** argv)
             LZ4F_preferences_t prefs = rand_prefs(0); size_t bs; size_t buffered, srcSize; int firstKind, secondKind; u8* dst; size_t cap, r; rec_t rc; int capDelta;
             static const int deltas[] = {0, 0, 0, -1, 1, -1000000};
             prefs.frameInfo.contentSize = 0; if (rndp(70)) prefs.frameInfo.blockSizeID = LZ4F_max64KB; if (rndp(30)) prefs.compressionLevel = 0;
+            while (4 * LZ4F_getBlockSize(prefs.frameInfo.blockSizeID) > maxn) prefs.frameInfo.blockSizeID = (LZ4F_blockSizeID_t)(prefs.frameInfo.blockSizeID - 1);   /* buffered + srcSize must fit the data buffer */
             bs = LZ4F_getBlockSize(prefs.frameInfo.blockSizeID);
             switch (rndn(5)) { case 0: buffered = 0; break; case 1: buffered = 1 + rndn(20); break; case 2: buffered = bs - 1; break; case 3: buffered = bs - 1 - rndn(10); break; default: buffered = rndn((u32)bs); }
             switch (rndn(6)) { case 0: srcSize = 0; break; case 1: srcSize = bs; break; case 2: srcSize = bs - buffered; break; case 3: srcSize = bs + 1 + rndn(10); break; case 4: srcSize = rndn((u32)(3 * bs)); break; default: srcSize = 1 + rndn(100); }
@@ -325,6 +329,8 @@ int main(int argc, char** argv)
             r = secondKind ? LZ4F_uncompressedUpdate(cctx, dst, cap, data + buffered, srcSize, NULL) : LZ4F_compressUpdate(cctx, dst, cap, data + buffered, srcSize, NULL); n_calls++;
             if (LZ4F_isError(r)) { if (capDelta >= 0 && (firstKind == secondKind || !buffered)) c_fail(&rc, "update_failed_with_capacity_at_bound"); }
             else if (r > cap) c_fail(&rc, "update_wrote_more_than_capacity");
+            if (!LZ4F_isError(r) && !prefs.autoFlush && firstKind == secondKind && srcSize > 0)   /* the model's worst case (every full block stored raw) really is an upper bound of what the update wrote */
+                genfunc_rec(5, (long long)srcSize, prefs.frameInfo.blockSizeID ? prefs.frameInfo.blockSizeID : 4, prefs.frameInfo.blockChecksumFlag, (long long)buffered, 0, (long long)r);
             free(dst);
             if (!LZ4F_isError(r)) {
                 cap = LZ4F_compressBound(0, &prefs); dst = xalloc(cap);
@@ -333,6 +339,25 @@ int main(int argc, char** argv)
                 free(dst);
             }
             cur_clear();
+        }
+        {   /* flush / end / mode-switching update with SMALL capacities around the buffered amount: error or within capacity, never beyond */
+            static const size_t Ns[] = {1, 10, 100, 4000, 65535}; int ni, cb, cc, which, capd;
+            for (ni = 0; ni < 5; ni++) for (cb = 0; cb < 2; cb++) for (cc = 0; cc < 2; cc++) for (which = 0; which < 3; which++) for (capd = 0; capd <= 13; capd++) {
+                LZ4F_preferences_t prefs; size_t N = Ns[ni]; size_t cap = N + (size_t)capd; u8* dst; size_t r; rec_t rc; u8 hdr[LZ4F_HEADER_SIZE_MAX];
+                memset(&prefs, 0, sizeof prefs); prefs.frameInfo.blockSizeID = LZ4F_max64KB; prefs.frameInfo.blockMode = LZ4F_blockIndependent; prefs.frameInfo.blockChecksumFlag = (LZ4F_blockChecksum_t)cb; prefs.frameInfo.contentChecksumFlag = (LZ4F_contentChecksum_t)cc;
+                gen_data(data, N + 8, D_RANDOM);
+                rec_begin(&rc, OP_FRAME + 102); rec_prefs(&rc, &prefs); rec_int(&rc, (long long)N); rec_int(&rc, (long long)cap); rec_int(&rc, which); cur_set(&rc);
+                r = LZ4F_compressBegin(cctx, hdr, sizeof hdr, &prefs); n_calls++; if (LZ4F_isError(r)) { c_fail(&rc, "begin_failed"); continue; }
+                dst = xalloc(LZ4F_compressBound(N, &prefs)); r = LZ4F_compressUpdate(cctx, dst, LZ4F_compressBound(N, &prefs), data, N, NULL); free(dst); n_calls++;
+                if (LZ4F_isError(r)) { c_fail(&rc, "first_update_failed_at_bound"); continue; }
+                dst = xalloc(cap);
+                if (which == 0) r = LZ4F_flush(cctx, dst, cap, NULL);
+                else if (which == 1) r = LZ4F_compressEnd(cctx, dst, cap, NULL);
+                else r = LZ4F_uncompressedUpdate(cctx, dst, cap, data + N, 1, NULL);       /* switch of mode with N bytes buffered */
+                n_calls++;
+                if (!LZ4F_isError(r) && r > cap) c_fail(&rc, which == 0 ? "flush_wrote_more_than_capacity" : which == 1 ? "end_wrote_more_than_capacity" : "update_wrote_more_than_capacity");
+                free(dst); cur_clear();
+            }
         }
         for (i = 0; i < (thorough ? 2000 : 200); i++) {   /* compressFrame at exactly the frame bound, and below */
             LZ4F_preferences_t prefs = rand_prefs(0); size_t n = rndp(50) ? rndn(300) : rndn(200000); size_t cap, r; u8* dst; rec_t rc; int below = rndp(30);
@@ -375,14 +400,26 @@ int main(int argc, char** argv)
             n_frames++;
             /* decoder side: history on the shared dctx, then this frame must decode as on a fresh context, one frame per completion */
             if (a.n) {
-                int hist = (int)rndn(5); decres_t d; size_t fsz = a.n; u8* two;
+                int hist = (int)rndn(5); decres_t d; size_t fsz = a.n; u8* two; vec_t hf; LZ4F_preferences_t hp = rand_prefs(0); size_t hn = 200 + rndn(100000);
+                /* the frame used for the history has its own preferences (content size present in half of the cases) */
+                memset(&hf, 0, sizeof hf); { u8* hd = xalloc(hn); gen_data(hd, hn, (int)rndn(D_KINDS)); hp.frameInfo.contentSize = rndp(60) ? hn : 0; { LZ4F_cctx* hc; LZ4F_createCompressionContext(&hc, LZ4F_VERSION); if (make_frame_stream(hc, &hp, hd, hn, DK_NONE, 0, NULL, &hf, 0)) hf.n = 0; LZ4F_freeCompressionContext(hc); } free(hd); }
+                if (hf.n == 0) { vec_put(&hf, a.p, a.n); }
                 switch (hist) {
                 case 0: break;
                 case 1: { decres_t t = decode_frame(dctx, a.p, a.n, 0, 0, NULL, 0, rnd()); free(t.out.p); break; }                       /* a completed frame */
-                case 2: { decres_t t = decode_frame(dctx, a.p, rndn((u32)a.n), 2, 0, NULL, 0, rnd()); free(t.out.p); LZ4F_resetDecompressionContext(dctx); break; }   /* truncated, then reset */
-                case 3: { u8* m = xalloc(a.n); decres_t t; memcpy(m, a.p, a.n); m[rndn((u32)a.n)] ^= 0x40; t = decode_frame(dctx, m, a.n, 2, 0, NULL, 0, rnd()); free(t.out.p); free(m); LZ4F_resetDecompressionContext(dctx); break; }  /* corrupted, then reset */
+                case 2: { decres_t t = decode_frame(dctx, hf.p, rndp(50) ? 7 + rndn(30) : rndn((u32)hf.n), rndp(50) ? 0 : 2, 0, NULL, 0, rnd()); free(t.out.p); LZ4F_resetDecompressionContext(dctx); break; }   /* truncated (often right after the header), then reset */
+                case 3: { u8* m = xalloc(hf.n); decres_t t; memcpy(m, hf.p, hf.n); m[hf.n > 40 ? 20 + rndn((u32)hf.n - 20) : rndn((u32)hf.n)] ^= 0x40; t = decode_frame(dctx, m, hf.n, rndp(50) ? 0 : 2, 0, NULL, 0, rnd()); free(t.out.p); free(m); LZ4F_resetDecompressionContext(dctx); break; }  /* corrupted, then reset */
                 default: { u8 s[48]; u32 magic = 0x184D2A50u + rndn(16), sz = rndn(40); decres_t t; memcpy(s, &magic, 4); memcpy(s + 4, &sz, 4); memset(s + 8, 7, sz); t = decode_frame(dctx, s, 8 + sz, (int)rndn(3), 0, NULL, 0, rnd()); free(t.out.p); break; }  /* skippable */
                 }
+                if (rndp(50)) {   /* header consumed by LZ4F_getFrameInfo, rest by LZ4F_decompress: must still decode like a fresh context */
+                    LZ4F_frameInfo_t fi; size_t hsz = a.n; size_t hr = LZ4F_getFrameInfo(dctx, &fi, a.p, &hsz);
+                    if (LZ4F_isError(hr)) c_fail(&r, "getFrameInfo_failed");
+                    else { decres_t d2 = decode_frame(dctx, a.p + hsz, a.n - hsz, rndp(50) ? 0 : 2, 0, NULL, 0, rnd()); n_decodes++;
+                        if (d2.verdict != 0) { c_fail(&r, "reused_dctx_failed_on_valid_frame"); LZ4F_resetDecompressionContext(dctx); }
+                        else if (d2.out.n != n || (n && memcmp(d2.out.p, data, n) != 0)) c_fail(&r, "reused_dctx_wrong_content");
+                        free(d2.out.p); }
+                }
+                free(hf.p);
                 /* two frames in one buffer: the first completion must stop exactly at the end of the first frame */
                 two = xalloc(2 * fsz); memcpy(two, a.p, fsz); memcpy(two + fsz, a.p, fsz);
                 d = decode_frame(dctx, two, 2 * fsz, rndp(50) ? 0 : 5, 0, NULL, 0, rnd()); n_decodes++;
